@@ -1175,6 +1175,40 @@ def run_allops_shard(args):
     return res
 
 
+# ---------------------------------------------------------------------------------------
+# maps with many keys: the docstring example of the two strategies scaled to n disjuncts (2n keys, n up to 12):
+#   f = (a1 & b) | ... | (an & b),  {ai -> ci, (ci & b) -> di}:  most-general gives (ci & b) ..., most-specific di ...
+
+def run_manykeys(ctx):
+    res = ctx.res
+    for ms in (False, True):
+        for n in (1, 2, 4, 9, 12):
+            env = MSEnvironment() if ms else Environment()
+            push_env(env)
+            try:
+                m = env.formula_manager
+                b = m.Symbol("b")
+                A_ = [m.Symbol("a%d" % i) for i in range(n)]
+                C_ = [m.Symbol("c%d" % i) for i in range(n)]
+                D_ = [m.Symbol("d%d" % i) for i in range(n)]
+                f = m.Or([m.And(A_[i], b) for i in range(n)])
+                subs = {}
+                for i in range(n):
+                    subs[A_[i]] = C_[i]
+                    subs[m.And(C_[i], b)] = D_[i]
+                chk = Checker(env, ms_env=ms)
+                res.count("evaluations")
+                res.count("nontrivial")
+                bad = chk.verdicts(f, subs, {})
+                res.outcome("manykeys:%d:%s" % (2 * n, "ok" if not bad else "differs"))
+                if bad:
+                    res.violation("manykeys", "manykeys:%s:%s" % (bad[0][1], bad[0][2]),
+                                  "%d keys%s: %s" % (2 * n, " [MSS environment]" if ms else "", "; ".join("%s/%s/%s: %s" % x for x in bad)[:600]),
+                                  case_json({"name": "manykeys", "env": "ms" if ms else "mg"}, f, subs, {}))
+            finally:
+                pop_env()
+
+
 def run(ctx):
     ctx.level = "exploration"
     ctx.rule = ("all formulas of each dedicated profile up to the part's depth (+ seeds with shared sub-DAGs "
@@ -1207,6 +1241,8 @@ def run(ctx):
         shards.extend((pi, i, n, ctx.seed) for i in range(n))
     ctx.rng.shuffle(shards)
     ctx.pmap(run_shard, shards)
+    if not getattr(ctx, "parts", None) or "manykeys" in ctx.parts:
+        run_manykeys(ctx)
     if not getattr(ctx, "parts", None) or "allops" in ctx.parts:
         ctx.pmap(run_allops_shard, [(pn, i, 8, ctx.quick) for pn, _, _, _ in _allops_parts(ctx.quick) for i in range(8)])
 
